@@ -74,6 +74,13 @@ CHECKS['C02'] = dict(
          'shared intermediates and sampled depth-3 chains/diamonds are parsed and run by the real Program on symbolic masked input arrays; every command result is proved equal (mask and non-missing values) to the reference semantics applied bottom-up along the dependency graph.',
     note='Trusted: z3, symnp (validated per path against real numpy through the same model text), mpv/oracle.py; parameters are concrete literals here (C06-C08 vary them); deeper shapes are sampled with VERIF_SEED and labelled so.',
     ref='DESIGN.md §2 C02')
+CHECKS['C19'] = dict(
+    technique='one inductive step of the real Program.__init__ and CommandMeta.__new__ over an arbitrary registry pre-state with z3-string module/command/library names; membership and duplicate obligations decided by the sequence theory',
+    text='Bounded symbolic model checking: the process-global registry is an arbitrary list of entries with symbolic names (whatever any earlier history could have left there), library loading is stubbed, '
+         'and the real constructor runs with symbolic library names; the served command set must be exactly the entries whose module is a requested library or a dotted sub-module, construction must fail iff two served entries share a name, '
+         'and one real metaclass registration step keeps earlier entries and adds the new class iff no entry has its (module, name).',
+    note='Trusted: z3 strings; S-load stub (import machinery outside); counterexamples replayed with concrete strings on the real constructor.',
+    ref='DESIGN.md §3 C19')
 NOT_YET = {}
 ALL = ['C%02d' % i for i in range(1, 21)]
 
